@@ -23,13 +23,20 @@ ASSUMPTIONS = [
     "Extra columns are legal in SAM (tags) and VCF (samples), so more/double-column violations are not injected there.",
 ]
 REQUIRED_CLASSES = ["offending-line-empty", "non-numeric-in-all-dot-column", "malformed-float", "sign-only", "bad-marker", "bad-plus", "non-numeric", "bad-strand", "fewer-columns", "more-columns", "double-columns",
-                    "lazy", "eager", "gzip", "offender-not-in-first-chunk", "format-exception", "malformed-integer-among-signed-ones", "malformed-float-among-scientific-ones"]
-BOUNDS = {"quick": "core: fasta2, fastq, bed3, bed6 with 2..3 records of width 1..2, all p, all k, 4 flag combinations; every malformed-number text at every record of a three-record bedGraph, narrowPeak and BED6 file; 60 sampled files for each of 11 formats",
+                    "lazy", "eager", "gzip", "offender-not-in-first-chunk", "format-exception", "malformed-integer-among-signed-ones", "malformed-float-among-scientific-ones",
+                    "malformed-element-of-a-list-valued-column", "malformed-value-of-a-typed-info-key"]
+BOUNDS = {"quick": "core: fasta2, fastq, bed3, bed6 with 2..3 records of width 1..2, all p, all k, 4 flag combinations; every malformed-number text at every record of a three-record bedGraph, narrowPeak and BED6 file; 200 sampled files for each of 13 formats (BED12 with list-valued columns and VCF with typed INFO keys included)",
           "thorough": "core: 2..4 records widths {1,2,5}; 1200 sampled files per format"}
 BUDGET_S = {"quick": 200, "thorough": 1500}
 
 NUMERIC_COLS = {"bed3": [1, 2], "bed6": [1, 2, 4], "bdg": [1, 2], "narrowpeak": [1, 2, 9], "vcf": [1], "sam": [1, 3, 4], "gtf": [3, 4], "gff": [3, 4], "wig": [1, 2],
-                "chromsizes": [1]}
+                "chromsizes": [1], "bed12": [1, 2, 6, 7, 9]}
+# list-valued columns (comma-separated numbers) and texts with one element that is not a number
+LIST_COLS = {"bed12": [10, 11]}
+BAD_LIST = ["3,x,", "12a", "7,8,1x2", "x,", "5,7Q,6,", "a12,4"]
+# typed INFO values of a VCF file whose header declares the key: (Number, Type) -> a well-formed and a malformed value
+BAD_INFO = {("1", "Integer"): ("12", ["1x", "x", "12a"]), ("A", "Integer"): ("1,2", ["3,1x", "x,2"]), (".", "Integer"): ("5", ["x", "4,5y"]),
+            ("2", "Integer"): ("1,2", ["1,y"]), ("1", "Float"): ("1.5", ["1.5x", "1..5", "abc"]), ("A", "Float"): ("1.0,2.5", ["1.0,x", "2.5.1,3"])}
 STRAND_COLS = {"bed6": 5, "narrowpeak": 5, "gtf": 6, "gff": 6}
 BAD_NUM = ["x", "12a", "a12", "1x2", "1P", "P", "1.5x", "7Q", "3 ", "-", "+", "1-", "--1", "1-2"]
 # float-typed columns and texts that are not decimal or scientific numbers (a lone sign, two decimal points, an exponent without digits)
@@ -74,6 +81,12 @@ def malformed_bytes(case):
                 lines[0] = "" if v.get("blank") else v.get("text", "X") + lines[0][1:]
             elif kind == "bad-plus":
                 lines[2] = "" if v.get("blank") else v.get("text", "-") + lines[2][1:]
+            elif kind == "non-numeric" and v.get("info_key"):
+                f = lines[0].split("\t")
+                items = [it for it in f[7].split(";") if it != "." and it.split("=")[0] != v["info_key"]]
+                items.insert(v.get("info_at", 0) % (len(items) + 1), v["info_key"] + "=" + v["text"])
+                f[7] = ";".join(items)
+                lines[0] = "\t".join(f)
             elif kind in ("non-numeric", "bad-strand"):
                 f = lines[0].split("\t")
                 f[v["col"]] = v["text"]
@@ -148,6 +161,10 @@ def classify(case):
         cl.append("malformed-float-among-scientific-ones")
     if v.get("float_column"):
         cl.append("malformed-float")
+    if v.get("list_column"):
+        cl.append("malformed-element-of-a-list-valued-column")
+    if v.get("info_key"):
+        cl.append("malformed-value-of-a-typed-info-key")
     if v.get("blank"):
         cl.append("offending-line-empty")
     if v["kind"] == "non-numeric" and v["text"] in ("-", "+"):
@@ -258,7 +275,31 @@ def task_core(stats, known_open, fmt, widths, max_records, stride=1, offset=0):
 
 
 @st.composite
+def typed_info_case(draw, max_records):
+    """A VCF file whose header declares typed INFO keys, with a malformed value for a numeric key in one record."""
+    number, typ = draw(st.sampled_from(sorted(BAD_INFO)))
+    key = draw(st.sampled_from(["DP", "AF", "AN"]))
+    others = [[i] + list(draw(st.sampled_from(S._INFO_KINDS))) for i in draw(st.lists(st.sampled_from(["DB", "NS", "STR", "H2"]), max_size=3, unique=True))]
+    decl = others[:1] + [[key, number, typ]] + others[1:]
+    case = draw(S.vcf_case("vcf", max_records, decl=decl))
+    while len(case["records"]) < 2:
+        case["records"].append(list(case["records"][0]))
+    nrec = len(case["records"])
+    good, bads = BAD_INFO[(number, typ)]
+    v = {"kind": "non-numeric", "pos": draw(st.one_of(st.integers(0, nrec - 1), st.just(nrec - 1))), "col": 7, "info_key": key,
+         "text": draw(st.sampled_from(bads)), "info_at": draw(st.integers(0, 3))}
+    case["violation"] = v
+    data, adm, offset = malformed_bytes(case)
+    size = len(data)
+    ks = sorted({x for x in (offset - 1, offset, offset + 1, size, size + 1, size // 2, size // 3, 40, 80) if 1 <= x <= size + 2})
+    case.update(k=max(draw(st.one_of(st.sampled_from(ks), st.integers(1, size + 2))), size // 40), gzip=draw(st.booleans()), lazy=draw(st.booleans()))
+    return case
+
+
+@st.composite
 def sampled_case(draw, fmt, max_records, W):
+    if fmt == "vcf-typed":
+        return draw(typed_info_case(max_records))
     case = draw(S.file_case(fmt, min_records=2, max_records=max_records, W=W, canonical=True))
     nrec = len(case["records"])
     kind = draw(st.sampled_from(kinds_for(fmt, nrec)))
@@ -277,6 +318,9 @@ def sampled_case(draw, fmt, max_records, W):
                     if draw(st.integers(0, 2)):
                         r[v["col"]] = draw(st.sampled_from(["1e-5", "2.5e3", "1.0e+2", "7e0", "-3.25e-2"]))
                 v["scientific_neighbours"] = True
+        if fmt in LIST_COLS and draw(st.booleans()):
+            v.update(col=draw(st.sampled_from(LIST_COLS[fmt])), text=draw(st.sampled_from(BAD_LIST)), list_column=True)
+            v.pop("float_column", None)
     elif kind == "bad-strand":
         v.update(col=STRAND_COLS[fmt], text=draw(st.sampled_from(BAD_STRAND)))
     elif kind == "bad-marker":
@@ -306,8 +350,8 @@ def sampled_case(draw, fmt, max_records, W):
     data, adm, offset = malformed_bytes(case)
     size = len(data)
     ks = sorted({x for x in (offset - 1, offset, offset + 1, size, size + 1, size // 2, size // 3, 1, 2) if 1 <= x <= size + 2})
-    # (very small chunk sizes on files of tens of kilobytes cost quadratic time without showing anything new)
-    case.update(k=max(draw(st.one_of(st.sampled_from(ks), st.integers(1, size + 2))), size // 2000), gzip=draw(st.booleans()), lazy=draw(st.booleans()))
+    # (chunk sizes far below the file size cost quadratic time without showing anything new; the exhaustive core has every size on small files)
+    case.update(k=max(draw(st.one_of(st.sampled_from(ks), st.integers(1, size + 2))), size // 40), gzip=draw(st.booleans()), lazy=draw(st.booleans()))
     return case
 
 
@@ -317,7 +361,7 @@ def task_sampled(stats, known_open, fmt, n, seed, max_records, W):
 
 
 CORE_FMTS = ["fasta2", "fastq", "bed3", "bed6"]
-SAMPLED_FMTS = ["fasta2", "fastq", "bed3", "bed6", "bdg", "narrowpeak", "vcf", "sam", "gtf", "gff", "wig"]
+SAMPLED_FMTS = ["fasta2", "fastq", "bed3", "bed6", "bdg", "narrowpeak", "vcf", "sam", "gtf", "gff", "wig", "bed12", "vcf-typed"]
 
 
 def tasks(tier, seed):
@@ -325,7 +369,7 @@ def tasks(tier, seed):
     if tier == "quick":
         # (sampled files first: they must not be the part a time budget cuts off)
         for i, fmt in enumerate(SAMPLED_FMTS):
-            out.append(("task_sampled", dict(fmt=fmt, n=60, seed=seed * 1000 + i, max_records=12, W=12)))
+            out.append(("task_sampled", dict(fmt=fmt, n=200, seed=seed * 1000 + i, max_records=12, W=12)))
         for fmt in CORE_FMTS:
             for off in range(4):
                 out.append(("task_core", dict(fmt=fmt, widths=[1, 2], max_records=3, stride=8, offset=off)))
